@@ -1065,3 +1065,35 @@ def replay_pair(rp):
             out.append((*innermost('eq-intransitive', xs[0], xs[2]),
                         'a == b and b == c but a != c'))
     return out
+
+
+class _Recorder:
+    """stands in for the Check object inside a child process"""
+
+    def __init__(self):
+        self.violations, self.counts, self.samples = [], [], []
+
+    def violation(self, sig, what, rep, found_input=True):
+        self.violations.append((sig, what, rep, found_input))
+
+    def count(self, key, *a, **k):
+        self.counts.append(key)
+
+    def sample(self, obj, *a, **k):
+        self.samples.append(obj)
+
+
+def run_recorded(found, base_specs, seed, thorough):
+    """check_identity in a child process (runs while the parent waits for Lean);
+    returns what has to be replayed into the parent's Check."""
+    import random
+    import traceback
+    import warnings
+    warnings.simplefilter('ignore')
+    rec = _Recorder()
+    try:
+        stats = check_identity(rec, found, base_specs, random.Random(seed), thorough)
+    except Exception:
+        return {'error': traceback.format_exc()}
+    return {'violations': rec.violations, 'counts': rec.counts, 'samples': rec.samples,
+            'stats': stats}
